@@ -35,6 +35,7 @@ struct line_buffer *vk_alloc_line_buffer(int max_line_len)
 
 static const int NL[3] = {VK_NL1, VK_NL2, VK_NL3};
 #define NBLOCKS ((VK_ALN + 59) / 60)
+#define MAXNL (VK_NL1 > VK_NL2 ? (VK_NL1 > VK_NL3 || VK_NS < 3 ? VK_NL1 : VK_NL3) : (VK_NL2 > VK_NL3 || VK_NS < 3 ? VK_NL2 : VK_NL3))
 
 static int name_char_ok(unsigned char c) { return (c >= 'A' && c <= 'Z') || (c >= 'a' && c <= 'z') || (c >= '0' && c <= '9') || c == '_' || c == '.' || c == '|' || c == '-'; }
 
@@ -50,12 +51,12 @@ static int ref_gcg(const char *row, int n)
         return chk;
 }
 
-static int is_blank(int ln) { return vk_tape[ln][0] == 0 || (vk_tape[ln][0] == '\n' && vk_tape[ln][1] == 0); }
+static int is_blank(int ln) { return vk_tape[ln].c[0] == 0 || (vk_tape[ln].c[0] == '\n' && vk_tape[ln].c[1] == 0); }
 
 /* does tape line ln consist of name, at least one blank, chunk row[from..to) and nothing else? */
 static int block_line_ok(int ln, const char *name, int nl, const char *row, int from, int to)
 {
-        const char *l = vk_tape[ln];
+        const char *l = vk_tape[ln].c;
         int p = 0;
         for (int i = 0; i < nl; i++) { if (l[p] != name[i]) return 0; p++; }
         if (l[p] != ' ') return 0;
@@ -95,6 +96,7 @@ VK_MAIN()
                 }
                 m->sequences[s]->name[NL[s]] = 0;
         }
+        vk_layout_fill(VK_FMT, VK_NS, VK_ALN, NL, MAXNL);
         int rc = kalign_write_msa(m, NULL, VK_FMT == 1 ? "fasta" : VK_FMT == 2 ? "msf" : "clu");
         VK_ASSERT(rc == OK, "C15: writing a final alignment succeeds");
         VK_ASSERT(!vk_tape_overflow, "model limit: output tape large enough");
@@ -102,22 +104,22 @@ VK_MAIN()
         int ln = 0;
 #if VK_FMT == 1
         for (int s = 0; s < VK_NS; s++) {
-                VK_ASSERT(vk_tape[ln][0] == '>' && strcmp(vk_tape[ln] + 1, m->sequences[s]->name) == 0, "C15: FASTA record starts with >name");
+                VK_ASSERT(vk_tape[ln].c[0] == '>' && strcmp(vk_tape[ln].c + 1, m->sequences[s]->name) == 0, "C15: FASTA record starts with >name");
                 ln++;
                 for (int b = 0; b < NBLOCKS; b++) {
                         int from = b * 60, to = from + 60 < VK_ALN ? from + 60 : VK_ALN;
-                        VK_ASSERT((int)strlen(vk_tape[ln]) == to - from, "C15: FASTA rows are wrapped at exactly 60 columns, last line non-empty");
-                        for (int c = from; c < to; c++) VK_ASSERT(vk_tape[ln][c - from] == m->sequences[s]->seq[c], "C15: FASTA lines concatenate to the row");
+                        VK_ASSERT((int)strlen(vk_tape[ln].c) == to - from, "C15: FASTA rows are wrapped at exactly 60 columns, last line non-empty");
+                        for (int c = from; c < to; c++) VK_ASSERT(vk_tape[ln].c[c - from] == m->sequences[s]->seq[c], "C15: FASTA lines concatenate to the row");
                         ln++;
                 }
         }
         VK_ASSERT(ln == vk_tape_n, "C15: nothing else in the FASTA file");
 #else
 #if VK_FMT == 3
-        VK_ASSERT(strstr(vk_tape[0], "multiple sequence alignment") != NULL, "C15: Clustal file starts with its header line");
+        VK_ASSERT(strstr(vk_tape[0].c, "multiple sequence alignment") != NULL, "C15: Clustal file starts with its header line");
         ln = 1;
 #else
-        VK_ASSERT(strcmp(vk_tape[0], biotype == ALN_BIOTYPE_PROTEIN ? "!!AA_MULTIPLE_ALIGNMENT 1.0" : "!!NA_MULTIPLE_ALIGNMENT 1.0") == 0,
+        VK_ASSERT(strcmp(vk_tape[0].c, biotype == ALN_BIOTYPE_PROTEIN ? "!!AA_MULTIPLE_ALIGNMENT 1.0" : "!!NA_MULTIPLE_ALIGNMENT 1.0") == 0,
                   "C15: MSF type line names the right molecule type");
         VK_ASSERT(vk_msf_hdr_seen == 1, "C15: one MSF: line");
         VK_ASSERT(vk_msf_hdr.len == VK_ALN, "C15: MSF header declares the true alignment length");
@@ -133,9 +135,9 @@ VK_MAIN()
         }
         VK_ASSERT(vk_msf_hdr.check == sum, "C15: MSF header carries the sum of the row checksums");
         /* header layout: type line, blank, MSF line, blank, names, blank, //, blank */
-        VK_ASSERT(strstr(vk_tape[2], "MSF:") != NULL, "C15: MSF: line present");
-        for (int s = 0; s < VK_NS; s++) VK_ASSERT(strstr(vk_tape[4 + s], "Name:") != NULL && strstr(vk_tape[4 + s], "Len:") != NULL, "C15: Name: lines present");
-        VK_ASSERT(strcmp(vk_tape[5 + VK_NS], "//") == 0, "C15: header ends with //");
+        VK_ASSERT(strstr(vk_tape[2].c, "MSF:") != NULL, "C15: MSF: line present");
+        for (int s = 0; s < VK_NS; s++) VK_ASSERT(strstr(vk_tape[4 + s].c, "Name:") != NULL && strstr(vk_tape[4 + s].c, "Len:") != NULL, "C15: Name: lines present");
+        VK_ASSERT(strcmp(vk_tape[5 + VK_NS].c, "//") == 0, "C15: header ends with //");
         ln = 6 + VK_NS;
 #endif
         for (int b = 0; b < NBLOCKS; b++) {
